@@ -118,6 +118,21 @@ fn cases(args: &Args, rng: &mut Rng) -> Vec<C12Case> {
         v.push(mk(&format!("multi{i}"), a.clone(), b.clone(), &plan, f, (None, Some(0xFFFF_FFFB)), vec![], false));
         if i < 2 { v.push(mk(&format!("multi{i}-mt"), a, b, &plan, f, (None, None), vec![], true)); }
     }
+    // one channel is closed in the middle of the run (RE-CONFIG outgoing SSN reset naming ONE stream — an odd count, so the
+    // parameter carries two pad bytes) while the other channels — stream id 0 included, ids of both parities, ordered and
+    // unordered — keep carrying traffic in both directions: the survivors deliver everything, in order
+    for (i, (closer, closed)) in [(1usize, 3u16), (0, 2), (1, 1), (0, 0), (1, 2)].iter().enumerate() {
+        let ch = vec![spec(0, Kind::RelOrd, true, 0), spec(1, Kind::RelOrd, true, 0), spec(2, Kind::RelOrd, i % 2 == 0, 0), spec(3, Kind::RelUnord, true, 0)];
+        let chb: Vec<ChanSpec> = ch.iter().filter(|c| c.negotiated).cloned().collect();
+        let mut plan = vec![];
+        for side in 0..2usize { for id in 0..4u16 { plan.push((side, id, 40 + 10 * id as usize + side, 0u8)); plan.push((side, id, 1500 + id as usize, 0)); } }
+        let n0 = plan.len();
+        for side in 0..2usize { for id in 0..4u16 { if id != *closed { plan.push((side, id, 60 + id as usize + 5 * side, 0u8)); plan.push((side, id, 2500, 0)); plan.push((side, id, 7 + side, 0)); } } }
+        let f = if i == 4 { "A.DATA.3.drop+B.SACK.2.drop" } else { "-" };
+        let mut c = mk(&format!("close-one-channel-midway{i}"), ch, chb, &plan, f, (if i == 1 { Some(0xFFFF_FFF5) } else { None }, None), vec![(*closer + 2, *closed)], false);
+        for m in c.case.msgs.iter_mut().skip(n0) { m.phase = 1; }
+        v.push(c);
+    }
     // flow control: send buffers (sctp_max_buffered_amount) far smaller than the workload, several tasks and channels;
     // and a DCEP OPEN / ACK that has to be sent by the run loop while the send buffer is over its limit (the run loop
     // must not park in the senders' wait: nobody else processes the SACKs that free the credit)
@@ -392,6 +407,53 @@ fn run_one(c: &C12Case, port: u16) -> Outcome {
 /// canonical re-runnable text: `c12 <name>` of the quick/thorough list, or a full case line
 fn c12_text(c: &C12Case) -> String { format!("{} {}", c.name, case_text(&c.case)) }
 
+/// the harness' own reading of a RE-CONFIG chunk value (RFC 6525 §4.1, RFC 4960 §3.2.1): the stream ids each well-formed
+/// Outgoing SSN Reset Request names within its *declared* length
+fn rfc_listed(v: &[u8]) -> Vec<Vec<u16>> {
+    let (mut i, mut out) = (0usize, vec![]);
+    while i + 4 <= v.len() {
+        let ty = u16::from_be_bytes([v[i], v[i + 1]]);
+        let len = u16::from_be_bytes([v[i + 2], v[i + 3]]) as usize;
+        if len < 4 || i + len > v.len() { break; }
+        if ty == 13 && len >= 16 { out.push(v[i + 16..i + len].chunks_exact(2).map(|c| u16::from_be_bytes([c[0], c[1]])).collect()); }
+        i += len + (4 - len % 4) % 4;
+    }
+    out
+}
+
+/// RE-CONFIG chunk values handled one after the other by a fresh endpoint with channels 0..5: (implementation line, oracle failures)
+async fn reconfig_run(chunks: &[Vec<u8>], port: u16) -> (String, Vec<(String, String)>) {
+    let specs: Vec<ChanSpec> = (0..6u16).map(|id| spec(id, Kind::RelOrd, true, 0)).collect();
+    let mut ep = Endpoint::new(port, port + 1, true, &EpCfg::default(), &specs).await;
+    for _ in 0..20 { tokio::task::yield_now().await; }
+    ep.sctp.verif_set_state(SctpState::Connected);
+    let (mut outs, mut fails) = (vec![], vec![]);
+    for v in chunks {
+        for d in &ep.dcs { d.next_ssn.store(7, std::sync::atomic::Ordering::SeqCst); }
+        while ep.out_rx.try_recv().is_ok() {}
+        let mut pk = vec![];
+        pk.extend_from_slice(&port.to_be_bytes()); pk.extend_from_slice(&port.to_be_bytes()); pk.extend_from_slice(&0u32.to_be_bytes()); pk.extend_from_slice(&[0; 4]);
+        pk.extend_from_slice(&[130, 0]); pk.extend_from_slice(&((4 + v.len()) as u16).to_be_bytes()); pk.extend_from_slice(v);
+        let c = crc32c::crc32c(&pk).to_le_bytes(); pk[8..12].copy_from_slice(&c);
+        let _ = ep.sctp.verif_handle_packet(Bytes::from(pk)).await;
+        let reset: Vec<u16> = ep.dcs.iter().filter(|d| d.next_ssn.load(std::sync::atomic::Ordering::SeqCst) == 0).map(|d| d.id).collect();
+        let mut resps = vec![];
+        while let Ok(p) = ep.out_rx.try_recv() { for (t, _f, val) in chunks_of(&p) { if t == 130 && val.len() >= 12 && val[1] == 16 {
+            resps.push((u32::from_be_bytes([val[4], val[5], val[6], val[7]]), u32::from_be_bytes([val[8], val[9], val[10], val[11]]))); } } }
+        let line = if resps.is_empty() { "-".to_string() } else { resps.iter().map(|(sn, res)| format!("{sn}:{res}")).collect::<Vec<_>>().join(" ") };
+        outs.push(format!("{line} reset={}", if reset.is_empty() { "-".to_string() } else { reset.iter().map(|x| x.to_string()).collect::<Vec<_>>().join(",") }));
+        let listed = rfc_listed(v);
+        let any_all = listed.iter().any(|ids| ids.is_empty());
+        for ch in &reset {
+            if !any_all && !listed.iter().any(|ids| ids.contains(ch)) {
+                fails.push(("reconfig:stream-reset-not-named-in-the-request".to_string(), format!("channel {ch} had its outgoing SSN reset by the chunk {}; its requests name {listed:?}", hex(v))));
+            }
+        }
+    }
+    ep.shutdown();
+    (outs.join(" | "), fails)
+}
+
 /// one live PeerConnection pair: (Close counts [offerer channel, answerer channel], oracle problems); Err = the pair could
 /// not be set up
 async fn pc_live(variant: usize) -> Result<(Vec<usize>, Vec<(String, String)>), String> {
@@ -447,6 +509,14 @@ pub fn run(args: &Args) {
     let mut rng = Rng::new(args.seed);
     if let Some(case) = &args.replay {
         // replay by name (the generated list is deterministic per tier/seed) or by a c01-style case line
+        if let Some(rest) = case.strip_prefix("reconfig ") {
+            let chunks: Vec<Vec<u8>> = rest.split_whitespace().map(crate::unhex).collect();
+            let rt = tokio::runtime::Builder::new_current_thread().enable_all().build().unwrap();
+            let (out, fails) = rt.block_on(reconfig_run(&chunks, 53_990));
+            println!("impl: {out}");
+            for (sig, d) in fails { println!("ORACLE-FAIL {sig} {d}"); }
+            return;
+        }
         let name = case.split_whitespace().next().unwrap_or("");
         let mut r2 = Rng::new(args.seed);
         let mut dummy = Run::new("c12", &format!("{}/replay", args.out));
@@ -597,6 +667,52 @@ pub fn run(args: &Args) {
             run.count_n("prsend_collateral_abandonment", collateral);
             ep.shutdown();
         });
+    }
+    // RE-CONFIG parameter walk as a function: crafted RE-CONFIG chunks through the real `handle_packet` → `handle_reconfig`
+    // → `handle_reconfig_outgoing_ssn_reset` on an idle endpoint with channels 0..5 (each with next_ssn 7). Observed per chunk:
+    // the RE-CONFIG responses it sends (serial number, result) and which channels had their outgoing SSN reset.
+    // Oracle (own reading of RFC 6525 / 4960 §3.2.1): a channel is reset only if a request of the chunk names its id
+    // within the parameter's *declared* length (pad bytes are not stream ids), or the request names no stream at all.
+    {
+        let rt = tokio::runtime::Builder::new_current_thread().enable_all().build().unwrap();
+        let n = if args.tier_thorough { 400 } else { 80 };
+        rt.block_on(async {
+            let mut port = 53_000u16;
+            for k in 0..n {
+                port = if port > 53_900 { 53_000 } else { port + 2 };
+                let mut next_sn: u32 = *rng.pick(&[0u32, 1, 500, 0xFFFF_FFF0]);
+                let nchunks = rng.range(1, 3);
+                let mut chunks: Vec<Vec<u8>> = vec![];
+                for _ in 0..nchunks {
+                    // build a chunk value of 1..3 parameters
+                    let mut v: Vec<u8> = vec![];
+                    for pi in 0..rng.range(1, 3) {
+                        let _ = pi;
+                        match if k < 12 { 0 } else { rng.below(6) } {
+                            0..=2 => {   // Outgoing SSN Reset Request naming nid streams
+                                let nid = if k < 12 { (k % 6) as usize } else { rng.below(6) as usize };
+                                let ids: Vec<u16> = (0..nid).map(|_| rng.range(1, 7) as u16).collect();   // never 0: a reset of channel 0 must come from nowhere
+                                let sn = if rng.chance(1, 6) { next_sn.wrapping_sub(1) } else { let s0 = next_sn; next_sn = next_sn.wrapping_add(1); s0 };
+                                let len = 16 + 2 * ids.len();
+                                v.extend_from_slice(&13u16.to_be_bytes()); v.extend_from_slice(&(len as u16).to_be_bytes());
+                                v.extend_from_slice(&sn.to_be_bytes()); v.extend_from_slice(&0u32.to_be_bytes()); v.extend_from_slice(&77u32.to_be_bytes());
+                                for i in &ids { v.extend_from_slice(&i.to_be_bytes()); }
+                                while v.len() % 4 != 0 { v.push(0); }
+                            }
+                            3 => { v.extend_from_slice(&[0, 16, 0, 12, 0, 0, 0, 9, 0, 0, 0, 1]); }                     // a response parameter
+                            4 => { v.extend_from_slice(&[0x80, 1, 0, 7, 1, 2, 3, 0]); }                               // unknown type, odd length, padded
+                            _ => { v.extend_from_slice(&[0, 13, 0, 40, 0, 0, 0, 1]); break; }                         // truncated: declares more than is there
+                        }
+                    }
+                    chunks.push(v);
+                }
+                let (out, fails) = reconfig_run(&chunks, port).await;
+                let input = chunks.iter().map(|v| hex(v)).collect::<Vec<_>>().join(" ");
+                for (sig, d) in fails { run.fail(&sig, &format!("reconfig {input}"), &d); }
+                run.case("reconfig", &input, &out, true);
+            }
+        });
+        run.count_n("reconfig_cases", n as u64);
     }
     // the third Close emitter, `PeerConnection::close`: channels created on a real PeerConnection, closed by the
     // application and / or by close() (twice): never more than one Close per channel
